@@ -435,8 +435,7 @@ def maximally_coherent_state(d:int, return_dm:bool=False):
         ret (np.ndarray): the maximally coherent state, `ret.ndim=1` or `ret.ndim=2`
     '''
     assert d>=1
+    ret = np.ones(d, dtype=np.float64) / np.sqrt(d)
     if return_dm:
-        ret = np.eye(d, dtype=np.float64) / d
-    else:
-        ret = np.ones(d, dtype=np.float64) / np.sqrt(d)
+        ret = ret[:,np.newaxis] * ret.conj()
     return ret
